@@ -23,7 +23,7 @@ from pbt.core import reftypes as R
 PID = "C15"
 LEVEL = "fault_enumeration"
 RULE = (
-    "histories: Hypothesis rule-based machine over four servers (two sharing ORG/FID with different URLs, two without ORG/FID) "
+    "histories: Hypothesis rule-based machine over seven servers (four sharing ORG/FID - three of them also the host, told apart by path or port; three without ORG/FID, two of them on one host) "
     "x server behaviours {newer profile, same date, older profile, 'up to date', error status, garbage, transport failure} x "
     "client {same instance, restarted, second client with equal configuration}; reference model = newest profile bytes each "
     "server has delivered: every returning call returns exactly those bytes, every request carries that profile's DTPROFUP (or "
@@ -48,6 +48,10 @@ SERVERS = [
     {"url": "https://ofx2.alpha-bank.com/other", "org": "ALPHA", "fid": "1", "base": 2300},
     {"url": "https://ofx.noid-one.com/ofx", "org": None, "fid": None, "base": 2600},
     {"url": "https://ofx.noid-two.org/ofx", "org": None, "fid": None, "base": 2900},
+    # same ORG/FID and same host as server 0, told apart only by path / port / query
+    {"url": "https://ofx.alpha-bank.com/hosted/bank2/ofx", "org": "ALPHA", "fid": "1", "base": 3200},
+    {"url": "https://ofx.alpha-bank.com:8443/ofx", "org": "ALPHA", "fid": "1", "base": 3500},
+    {"url": "https://ofx.noid-one.com/ofx?inst=2", "org": None, "fid": None, "base": 3800},
 ]
 PLACEHOLDER_US = R.local_us(1990, 1, 1)
 STATS = None
@@ -103,7 +107,7 @@ class Env:
 # histories
 # ---------------------------------------------------------------------------
 class CacheMachine(RuleBasedStateMachine):
-    servers_allowed = (0, 1, 2, 3)
+    servers_allowed = tuple(range(7))
 
     def __init__(self):
         super().__init__()
@@ -134,7 +138,7 @@ class CacheMachine(RuleBasedStateMachine):
         if STATS is not None:
             STATS.fail(key, list(self.history), f"step {self.history[-1]}: {detail}")
 
-    @rule(si=st.integers(0, 3), who=st.sampled_from(["same", "same", "restart", "second"]), behaviour=st.sampled_from(["newer", "newer", "same", "older", "uptodate", "uptodate", "errstatus", "garbage", "transport"]))
+    @rule(si=st.integers(0, 6), who=st.sampled_from(["same", "same", "restart", "second"]), behaviour=st.sampled_from(["newer", "newer", "same", "older", "uptodate", "uptodate", "errstatus", "garbage", "transport"]))
     def request(self, si, who, behaviour):
         si = self.servers_allowed[si % len(self.servers_allowed)]
         server = SERVERS[si]
@@ -171,8 +175,10 @@ class CacheMachine(RuleBasedStateMachine):
         if held is not None and behaviour in ("uptodate", "errstatus", "garbage", "transport", "older"):
             self.flags.add("write-then-(uptodate|failure|restart)")
         self.flags.add("behaviour:" + behaviour)
-        if si in (1, 3):
+        if si in (1, 3, 4, 5, 6):
             self.flags.add("server sharing ORG/FID with another")
+        if si in (4, 5, 6):
+            self.flags.add("server sharing ORG/FID and host with another")
         before = len(self.env.net.log)
         files_before = profrs_files(self.env.tmp)
         result, raised = None, None
@@ -236,7 +242,7 @@ class CacheMachine(RuleBasedStateMachine):
                 self.fail("cache-does-not-hold-newest", f"files {sorted(files)}; none equals the newest delivered profile of server {si}")
 
 
-def replay_history(case, servers_allowed=(0, 1, 2, 3)):
+def replay_history(case, servers_allowed=tuple(range(7))):
     global STATS
     saved = STATS
     STATS = H.Stats()
@@ -486,7 +492,7 @@ def check_case(case):
         return replay_history(case)
     kind = case["kind"]
     if kind == "history":
-        return replay_history(case["steps"], case.get("servers", (0, 1, 2, 3)))
+        return replay_history(case["steps"], case.get("servers", tuple(range(7))))
     if kind == "crash":
         return crash_failures(crash_run(case["pre"], case["k"], case["variant"]))
     if kind == "schedule":
@@ -564,8 +570,8 @@ def _schedule_worker(scheds):
 def run(ctx):
     # cross-server finding open? then the history machine stays on servers with distinct ORG/FID (exclusion by construction)
     openk = H.open_keys(PID)
-    servers = (0, 2) if any(k.startswith("cross-server/") for k in openk) else (0, 1, 2, 3)
-    if servers != (0, 1, 2, 3):
+    servers = (0, 2) if any(k.startswith("cross-server/") for k in openk) else tuple(range(7))
+    if len(servers) != 7:
         ctx.exclude("history machine restricted to servers with distinct ORG/FID (open cross-server finding)")
     n = ctx.scale(12, 150)
     steps = ctx.scale(6, 10)
